@@ -122,15 +122,16 @@ static inline void umap_ctor(umap* m)
     m->nodes[j].used = 0;
 }
 
-/* Lookup hint (bounded shape harness only): the harness may claim where k is (g_hint >= 0: in node g_hint; -1: nowhere).
- * The claim is *checked* (assertion) before it is used, so a hinted find returns exactly what the scan below returns
- * (keys are unique); it only spares symbolic execution a pointer that is a case split over all nodes. */
+/* Lookup hint (bounded shape harness only): the harness may say where k is (g_hint >= 0: in node g_hint; -1: nowhere; -2: no
+ * hint, plain scan).  A hint is *asserted* before it is relied on -- under the assertion the assumption that follows excludes
+ * nothing, and keys are unique, so a hinted find returns exactly what the scan returns.  Purpose: symbolic execution sees a
+ * constant node address (or 0) instead of a case split over all nodes. */
 extern int g_hint;
 static inline umap_iter umap_find(const umap* m, K k)
 {
   if (g_hint >= 0) {
     bool there = m->nodes[g_hint].used && m->nodes[g_hint].first == k;
-    __CPROVER_assert(there, "lookup hint of the harness: the key is stored in the hinted node");
+    __CPROVER_assert(there, "lookup hint of the harness: the key is stored in the node it names");
     __CPROVER_assume(there);
     return &m->nodes[g_hint];
   }
@@ -139,7 +140,8 @@ static inline umap_iter umap_find(const umap* m, K k)
     for (int j = 0; j < C12_NSLOT; j++)
       if (m->nodes[j].used && m->nodes[j].first == k)
         none = 0;
-    __CPROVER_assert(none, "lookup hint of the harness: the key is not stored");
+    /* checked before it is used: under the assertion the assumption excludes nothing */
+    __CPROVER_assert(none, "lookup hint of the harness: a key it calls absent is not stored");
     __CPROVER_assume(none);
     return 0;
   }
